@@ -30,6 +30,19 @@ source is not found - a refactor is never an alarm; the result then says `extrac
                 (`request.lib && lib_path.exists()` with `let lib_path = path.join(LIB_FILE)`, ...,
                 `request.data && path.join(DATA_DIR).exists()`), constants resolved, sorted by switch name
 
+  saveTable     the CONDITIONS of the steps of `fn save_impl` (session 2026-09-29): every top-level statement as rows
+                (guard atoms, step) in source order.  In front of the wipe the three refusal shapes
+                (`if C { return Err(FontWriteError::V); }` -> ([C], refuse:V); `E.map_err(FontWriteError::V)?;` ->
+                ([err:E], refuse:V); the loop over the store entries -> ([any-err:ITER], refuse:V)); behind it a small
+                statement translator: `if C { .. } [else { .. }]` (the atoms C / !(C) are added to the guard of every row
+                inside), `for P in IT { .. }` (ONE row `each(IT)[step;step]`), `write_xml_to_file(P, SRC, options)` and
+                `close_already::fs::write(P, SRC)` (`write:<path><-<source>`), `fs::<dir call>(P).map_err(.. V ..)?`
+                (`<call>:<path>!<V>`), `layer.save_with_options`, `<map>.insert(KEY.into(), v.into())`,
+                `recursive_sort_plist_keys(&mut v)`, `let` (a path binding or a binding inside a block is substituted
+                into its uses; a top-level value binding is a row `bind:<name>=<value>`).  Paths are spelled
+                `path/<resolved constant>` / `path/data/<data_path>` / `parent(..)`.  Error mappings of writes are not
+                part of a row.  Any other statement => UNKNOWN SHAPE => the section is pinned.
+
 The tie theorems (`source_*` in Norad/Props/C08.lean and C17.lean, by `decide`) compare these with what the MODEL does
 (the order of `plan` on a probe font; which corrupt file makes `loadImpl` fail under which single-switch request).
 """
@@ -214,7 +227,224 @@ def sec_load_switches(src, consts):
             ", ".join('("%s".toList, "%s".toList)' % p for p in pairs) + "]\n")
 
 
-SECTIONS = [("saveSteps", sec_save_steps), ("loadSwitches", sec_load_switches)]
+# ---------------------------------------------------------------------------------------------------------------------
+# saveTable: the CONDITIONS of the steps of `save_impl` - every top-level statement as rows (guard atoms, step)
+
+def norm(text):
+    """whitespace-free spelling of a Rust expression (blanks stay only between two word characters)"""
+    text = re.sub(r"\s+", " ", text.strip())
+    text = re.sub(r"\s*([^\w\s])\s*", r"\1", text)
+    return text
+
+
+def split_block(text):
+    """`{ a; b }` (whitespace-normalised) -> the statements inside"""
+    text = text.strip()
+    if not (text.startswith("{") and text.endswith("}")):
+        raise NotFound("block: " + text[:40])
+    return [t for _, t in statements(text)]
+
+
+def cut_if(text):
+    """`if C { A } [else { B }]` -> (C, A, B or None); C may not contain braces"""
+    m = re.match(r"if (?!let\b)([^{}]+?) \{", text)
+    if not m:
+        return None
+    i = m.end() - 1
+    depth, j = 1, i + 1
+    while depth and j < len(text):
+        depth += {"{": 1, "}": -1}.get(text[j], 0)
+        j += 1
+    a, rest = text[i:j], text[j:].strip()
+    if not rest:
+        return m.group(1), a, None
+    if rest.startswith("else {") and rest.endswith("}"):
+        b = rest[len("else "):]
+        if cut_balanced(b) == len(b):
+            return m.group(1), a, b
+    raise NotFound("if statement: " + text[:60])
+
+
+def cut_balanced(text):
+    depth, j = 1, 1
+    while depth and j < len(text):
+        depth += {"{": 1, "}": -1}.get(text[j], 0)
+        j += 1
+    return j
+
+
+class TableCtx:
+    def __init__(self, consts):
+        self.consts, self.env = consts, {}
+
+    def value(self, expr):
+        """normalised spelling of a value: references and derefs dropped, local bindings of blocks substituted,
+        messages of `expect` dropped"""
+        e = norm(expr)
+        e = re.sub(r"^&\*?|^\*", "", e)
+        for _ in range(6):
+            m = re.fullmatch(r"[a-z_]\w*", e)
+            if m and e in self.env:
+                e = self.env[e]
+            else:
+                break
+        e = re.sub(r'\.expect\("[^"]*"\)', ".expect()", e)
+        e = re.sub(r"(?<![\w.])&", "", e)
+        return e
+
+    def path(self, expr):
+        """`path.join(CONST)` -> `path/<value>`; `X.join(y)` -> `<X>/<y>`; `X.parent().unwrap()` -> `parent(<X>)`"""
+        e = norm(expr)
+        e = re.sub(r"^&", "", e)
+        if e == "path":
+            return "path"
+        m = re.fullmatch(r"([a-z_]\w*)\.clone\(\)", e)
+        if m:
+            e = m.group(1)
+        if re.fullmatch(r"[a-z_]\w*", e):
+            if e in self.env:
+                return self.env[e]
+            raise NotFound("path variable " + e)
+        m = re.fullmatch(r"(.+)\.parent\(\)\.unwrap\(\)", e)
+        if m:
+            return "parent(" + self.path(m.group(1)) + ")"
+        m = re.fullmatch(r"(.+?)\.join\(&?([\w.]+)\)", e)
+        if m:
+            base, arg = self.path(m.group(1)), m.group(2)
+            if re.fullmatch(r"[A-Z_]+", arg):
+                return base + "/" + const_value(self.consts, arg)
+            return base + "/<" + arg + ">"
+        raise NotFound("path expression " + e)
+
+
+PATH_RHS = r"(?:&?[\w.]+\.join\(&?[\w.]+\)|[\w.]+\.parent\(\)\.unwrap\(\))"
+
+
+def table_rows(stmts, guard, cx, top):
+    """rows of a statement list under the guard atoms `guard`"""
+    rows = []
+    for text in stmts:
+        text = text.strip()
+        if text in ("", ";"):
+            continue
+        # let bindings
+        m = re.fullmatch(r"let (mut )?(\w+)(?: ?: ?[^=]+?)? = (.+);", text)
+        if m:
+            name, rhs = m.group(2), m.group(3)
+            if re.fullmatch(PATH_RHS, norm(rhs)):
+                cx.env[name] = cx.path(rhs)
+            elif top and not guard:
+                rows.append((guard, "bind:%s=%s" % (name, cx.value(rhs))))
+            else:
+                cx.env[name] = cx.value(rhs)
+            continue
+        # if / if-else
+        c = cut_if(text)
+        if c:
+            cond, a, b = c
+            rows += table_rows(split_block(a), guard + [norm(cond)], cx, False)
+            if b is not None:
+                rows += table_rows(split_block(b), guard + ["!(" + norm(cond) + ")"], cx, False)
+            continue
+        # for loops: one row, the body's steps in order
+        m = re.fullmatch(r"for (.+?) in ([^{}]+?) (\{.*\})", text)
+        if m:
+            saved = dict(cx.env)
+            inner = table_rows(split_block(m.group(3)), [], cx, False)
+            cx.env = saved
+            if any(g for g, _ in inner):
+                raise NotFound("condition inside a loop of save_impl")
+            rows.append((guard, "each(%s)[%s]" % (norm(m.group(2)), ";".join(st for _, st in inner))))
+            continue
+        # writes
+        m = re.fullmatch(r"write::write_xml_to_file\((.+?), (.+?), options\) ?\.map_err\(.*\)\?;", text)
+        if m:
+            rows.append((guard, "write:%s<-%s" % (cx.path(m.group(1)), cx.value(m.group(2)))))
+            continue
+        m = re.fullmatch(r"close_already::fs::write\((.+?), (.+)\) ?\.map_err\(.*\)\?;", text)
+        if m and ".map_err" not in m.group(2):
+            rows.append((guard, "write:%s<-%s" % (cx.path(m.group(1)), cx.value(m.group(2)))))
+            continue
+        # directory calls: the error variant is kept (it names the step)
+        m = re.fullmatch(r"(?:std::)?fs::(remove_dir_all|create_dir_all|create_dir|remove_dir|remove_file)\((.+?)\) ?"
+                         r"\.map_err\((.*)\)\?;", text)
+        if m:
+            v = re.search(r"FontWriteError::(\w+)", m.group(3))
+            rows.append((guard, "%s:%s!%s" % (m.group(1), cx.path(m.group(2)), v.group(1) if v else "?")))
+            continue
+        m = re.fullmatch(r"layer\.save_with_options\((.+?), options\) ?\.map_err\(.*\)\?;", text)
+        if m:
+            rows.append((guard, "save_layer:" + cx.path(m.group(1))))
+            continue
+        m = re.fullmatch(r"(\w+)\.insert\(([A-Z_]+)\.into\(\), (\w+)\.into\(\)\);", text)
+        if m:
+            rows.append((guard, "insert:%s[%s]=%s" % (m.group(1), const_value(cx.consts, m.group(2)), m.group(3))))
+            continue
+        m = re.fullmatch(r"(?:crate::)?util::recursive_sort_plist_keys\(&mut (\w+)\);", text)
+        if m:
+            rows.append((guard, "sort-keys:" + m.group(1)))
+            continue
+        raise NotFound("save_impl: statement of unknown shape behind the validators: " + text[:70])
+    return rows
+
+
+def lean_str(x):
+    return '"%s".toList' % x.replace("\\", "\\\\").replace('"', '\\"')
+
+
+def sec_save_table(src, consts):
+    consts = dict(consts)
+    try:
+        shared = strip_comments(open(os.path.join(os.environ.get("VERIF_REPO", "/repo").rstrip("/") or "/repo",
+                                                  "src", "shared_types.rs")).read())
+        for m in re.finditer(r'\b(?:static|const)\s+([A-Z_]+)\s*:\s*&(?:\'static\s+)?str\s*=\s*"([^"\\]*)"\s*;', shared):
+            consts.setdefault(m.group(1), m.group(2))
+    except OSError:
+        pass
+    body = fn_body(src, "save_impl")
+    stmts = [t for _, t in statements(body)]
+    if not stmts or norm(stmts[-1]) != "Ok(())":
+        raise NotFound("save_impl does not end in Ok(())")
+    stmts = stmts[:-1]
+    wipe_at = next((k for k, t in enumerate(stmts) if "remove_dir_all" in t), None)
+    if wipe_at is None:
+        raise NotFound("save_impl: top-level statement with remove_dir_all")
+    rows = []
+    # in front of the wipe: the three refusal shapes, pure bindings, or (content) a file-system call / early return
+    for text in stmts[:wipe_at]:
+        if any(re.fullmatch(b, text) for b in PURE_BINDINGS):
+            continue
+        m = re.fullmatch(r"if (?!let\b)([^{}]+?) \{ return Err\(FontWriteError::(\w+)\); \}", text)
+        if m:
+            rows.append(([norm(m.group(1))], "refuse:" + m.group(2)))
+            continue
+        m = re.fullmatch(r"(.+?) ?\.map_err\(FontWriteError::(\w+)\)\?;", text)
+        if m and not re.search(FS_CALLS, text):
+            rows.append((["err:" + norm(m.group(1))], "refuse:" + m.group(2)))
+            continue
+        m = re.fullmatch(r"for \(path, entry\) in ([^{}]+?) \{ if let Err\(source\) = entry "
+                         r"\{ return Err\(FontWriteError::(\w+) \{ path: path\.clone\(\), source \}\); \};? \}", text)
+        if m:
+            rows.append((["any-err:" + norm(m.group(1))], "refuse:" + m.group(2)))
+            continue
+        m = re.search(FS_CALLS, text)
+        if m:
+            rows.append(([], "fs:" + re.sub(r"[^A-Za-z_:]", "", m.group(0))))
+            continue
+        if re.search(r"\breturn\s+Ok\s*\(", text):
+            rows.append(([], "return-ok"))
+            continue
+        raise NotFound("save_impl: statement of unknown shape in front of the wipe: " + text[:70])
+    cx = TableCtx(consts)
+    rows += table_rows(stmts[wipe_at:], [], cx, True)
+    if re.search(r"\breturn\s+Ok\s*\(", " ".join(stmts[wipe_at:])):
+        rows.append(([], "return-ok"))
+    lines = ["  ([%s], %s)" % (", ".join(lean_str(a) for a in g), lean_str(st)) for g, st in rows]
+    return ("/-- every top-level statement of `Font::save_impl` as rows (guard atoms - all must hold -, step), in source order -/\n"
+            "def saveTable : List (List (List Char) × List Char) := [\n" + ",\n".join(lines) + "]\n")
+
+
+SECTIONS = [("saveSteps", sec_save_steps), ("loadSwitches", sec_load_switches), ("saveTable", sec_save_table)]
 
 HEADER = """/-!
 GENERATED by tools/extract_save_order.py from norad's src/font.rs on every `./check C08|C09|C17` run.  Do not edit.
